@@ -2,6 +2,13 @@
 pings through Node.ping) and the Lean model (Drivers/C12.lean) with the same operation sequences; diff every answer, every
 assignment to `operating_state` (micro-trace), and the whole modelled state after every operation.
 
+Families: two linked hosts (bounded-exhaustive + random), the six-class network, `cls` = one node of EVERY node class under
+test between peers (pings to and through it, every interface kind), `load` = scenario dictionaries with every declared
+operating_state / duration / countdown handed to PrimaiteGame.from_config and then to setup_for_episode, with direct API calls,
+run-time duration changes, negative and huge durations.  Every tick also reports which sub-component `pre_timestep` /
+`apply_timestep` calls the node made (wrappers on Software / FileSystem / NetworkInterface), compared with the model's
+statement program.
+
 Independently of the model, implementation-side oracles of the property are evaluated on every trace:
   * an interface that passes a frame (receive_frame/send_frame reaching past its `enabled` test) while its node is not ON;
   * after every operation: node not ON with an enabled interface; node OFF with a RUNNING service / application;
@@ -39,6 +46,261 @@ def scenario_case(durs: List[Tuple[int, int]], ops: List[dict]) -> dict:
     return {"kind": "scenario", "nodes": nodes, "links": [[0, 1, 2, 1], [1, 1, 2, 2], [2, 3, 3, 1], [3, 2, 4, 1]], "ops": ops}
 
 
+HOST_CLASSES = ("host-node", "computer", "server", "printer")
+ALL_CLASSES = ("host-node", "computer", "printer", "server", "router", "switch", "firewall", "wireless-router")
+NIC_KIND = {"NIC": "i", "RouterInterface": "i", "SwitchPort": "s", "WirelessAccessPoint": "w"}
+
+
+def cls_case(cls: str, up: int, down: int, ops: List[dict]) -> dict:
+    """node 0 = the node under test (class `cls`), node 1 = computer A, node 2 = the far peer (computer B behind a switch /
+    router / firewall, a second wireless router on the same frequency for a wireless router; none for a host).
+    `pings` lists, by name, (source node, target address, the interfaces a reply-and-request must cross)."""
+    x = {"cls": cls, "name": "x", "up": up, "down": down}
+    a = {"cls": "computer", "name": "a", "up": 1, "down": 1, "ip": "192.168.1.2", "gw": "192.168.1.1"}
+    if cls in HOST_CLASSES:
+        x["ip"] = "192.168.1.3"
+        nodes, links = [x, a], [[0, 1, 1, 1]]
+        pings = {"to": [1, "192.168.1.3", [[1, 0], [0, 0]]], "from": [0, "192.168.1.2", [[0, 0], [1, 0]]]}
+    elif cls == "wireless-router":
+        w = {"cls": "wireless-router", "name": "w", "up": 1, "down": 1, "wr_ips": ("10.0.4.1", "10.0.3.2")}
+        x["wr_ips"] = ("192.168.1.1", "10.0.3.1")  # (wired port 2, access point port 1)
+        nodes, links = [x, a, w], [[0, 2, 1, 1]]
+        pings = {"to": [1, "192.168.1.1", [[1, 0], [0, 1]]], "air": [2, "10.0.3.1", [[2, 0], [0, 0]]],
+                 "from": [0, "10.0.3.2", [[0, 0], [2, 0]]]}
+    else:
+        b = {"cls": "computer", "name": "b", "up": 1, "down": 1, "ip": "10.0.0.2", "gw": "10.0.0.1"}
+        if cls == "switch":
+            b["ip"], b["gw"] = "192.168.1.4", "192.168.1.1"
+        nodes, links = [x, a, b], [[0, 1, 1, 1], [0, 2, 2, 1]]
+        through = [[1, 0], [0, 0], [0, 1], [2, 0]]
+        pings = {"through": [1, b["ip"], through], "back": [2, "192.168.1.2", [[2, 0], [0, 1], [0, 0], [1, 0]]]}
+        if cls != "switch":
+            pings["to"] = [1, "192.168.1.1", [[1, 0], [0, 0]]]
+    return {"kind": "cls", "nodes": nodes, "links": links, "pings": pings, "ops": ops}
+
+
+def cls_other_request(cls: str) -> dict:
+    """the class-specific seventh letter of the bounded-exhaustive alphabet: a request that touches what the class adds"""
+    if cls in HOST_CLASSES:
+        return {"op": "req", "node": 0, "key": "service", "svc": "dns-client", "verb": "stop"}
+    if cls == "switch":
+        return {"op": "req", "node": 0, "key": "network_interface", "nic": 1, "verb": "disable"}
+    if cls == "router":
+        return {"op": "req", "node": 0, "key": "acl", "path": ACL_ADD + [5], "expect": "success"}
+    if cls == "firewall":
+        return {"op": "req", "node": 0, "key": "external", "path": ["inbound", "acl"] + ACL_ADD + [5], "expect": "success"}
+    if cls == "wireless-router":
+        return {"op": "req", "node": 0, "key": "network_interface", "nic": 1, "verb": "disable"}
+    raise ValueError(cls)
+
+
+def cls_alphabet(cls: str) -> List[dict]:
+    names = list(cls_case(cls, 0, 0, [])["pings"])
+    p1, p2 = names[0], names[-1]
+    return [{"op": "req", "node": 0, "key": "shutdown"}, {"op": "req", "node": 0, "key": "startup"}, {"op": "req", "node": 0, "key": "reset"},
+            {"op": "tick"}, {"op": "pingpath", "name": p1}, {"op": "pingpath", "name": p2}, cls_other_request(cls)]
+
+
+def cls_tail(cls: str) -> List[dict]:
+    names = list(cls_case(cls, 0, 0, [])["pings"])
+    return ([{"op": "tick"}, {"op": "pingpath", "name": names[0]}] + [{"op": "tick"}] * 4 +
+            [{"op": "pingpath", "name": n} for n in names])
+
+
+def exhaustive_cls(cls: str, depth: int, up: int, down: int):
+    alpha = cls_alphabet(cls)
+    tail = cls_tail(cls)
+    for seq in itertools.product(range(len(alpha)), repeat=depth):
+        yield cls_case(cls, up, down, [dict(alpha[i]) for i in seq] + [dict(o) for o in tail])
+
+
+DUR_POOL = [0, 0, 1, 2, 3, 5, -1, -4, 10 ** 12]
+
+
+def api_op(rng: Rng, node: int, cls: str) -> dict:
+    """a direct call of the Python API on the node (no request, no validator)"""
+    k = rng.choice(["poweron", "poweroff", "reset", "nicenable", "nicdisable", "svc", "apprun", "appclose", "poweron", "poweroff"])
+    if cls not in HOST_CLASSES and k in ("svc", "apprun", "appclose"):
+        k = rng.choice(["poweron", "poweroff", "nicenable"])
+    op = {"op": "api", "node": node, "call": k}
+    if k in ("nicenable", "nicdisable"):
+        op["nic"] = rng.choice([1, 1, 2])
+    if k == "svc":
+        op["svc"] = rng.choice(HOST_SVCS)
+        op["verb"] = rng.choice(SVC_VERBS)
+    if k in ("apprun", "appclose"):
+        op["app"] = "web-browser"
+    return op
+
+
+def gen_random_cls(rng: Rng, max_ops: int, cls: Optional[str] = None, api: bool = False) -> dict:
+    """random sequence on the class topology; with `api`, direct API calls and run-time duration changes are mixed in (then the
+    legal-moves claim no longer applies — the invariants and the model agreement still do)"""
+    cls = cls or rng.choice(list(ALL_CLASSES))
+    case = cls_case(cls, rng.choice(DUR_POOL), rng.choice(DUR_POOL), [])
+    names = list(case["pings"])
+    ops, uniq = [], [0]
+    for _ in range(rng.range(5, max_ops)):
+        r = rng.below(24)
+        node = 0 if rng.chance(3, 4) else rng.below(len(case["nodes"]))
+        ncls = case["nodes"][node]["cls"]
+        if r < 6:
+            ops.append({"op": "tick"})
+        elif r < 9:
+            ops.append({"op": "req", "node": node, "key": "shutdown"})
+        elif r < 12:
+            ops.append({"op": "req", "node": node, "key": "startup"})
+        elif r < 14:
+            ops.append({"op": "req", "node": node, "key": "reset"})
+        elif r < 17:
+            ops.append({"op": "pingpath", "name": rng.choice(names)})
+        elif r < 18:
+            ops.append({"op": "inject", "node": 0, "nic": rng.choice([1, 2, 3])})
+        elif r < 20 and api:
+            ops.append(api_op(rng, node, ncls))
+        elif r < 21 and api:
+            ops.append({"op": "setdur", "node": node, "up": rng.choice(DUR_POOL), "down": rng.choice(DUR_POOL)})
+        else:
+            ops.append(other_request(rng, node, ncls, uniq))
+    case["ops"] = ops
+    return case
+
+
+def gen_cycle(rng: Rng) -> dict:
+    """item 4: put the software of a host into assorted states, run a whole power cycle (or a reset), watch what comes back"""
+    cls = rng.choice(list(HOST_CLASSES))
+    up, down = rng.choice([0, 1, 2]), rng.choice([0, 1, 2])
+    ops = []
+    for svc in HOST_SVCS:
+        v = rng.choice(["stop", "pause", "disable", "restart", None, None])
+        if v:
+            ops.append({"op": "req", "node": 0, "key": "service", "svc": svc, "verb": v})
+    a = rng.choice(["close", "install", None])
+    if a == "close":
+        ops.append({"op": "req", "node": 0, "key": "application", "app": "web-browser"})
+    elif a == "install":
+        ops += [{"op": "req", "node": 0, "key": "application", "app": "web-browser"}, {"op": "api", "node": 0, "call": "appinstall", "app": "web-browser"}]
+    if rng.chance(1, 3):
+        ops.append({"op": "req", "node": 0, "key": "network_interface", "nic": 1, "verb": "disable"})
+    if rng.chance(1, 3):
+        ops.append({"op": "req", "node": 0, "key": "os", "path": ["scan"]})
+    if rng.chance(1, 2):
+        ops.append({"op": "req", "node": 0, "key": "reset"})
+        ops += [{"op": "tick"}] * (down + up + 3)
+    else:
+        ops.append({"op": "req", "node": 0, "key": "shutdown"})
+        ops += [{"op": "tick"}] * (down + 1 + rng.below(3))
+        ops.append({"op": "req", "node": 0, "key": "startup"})
+        ops += [{"op": "tick"}] * (up + 2)
+    ops += [{"op": "pingpath", "name": "to"}, {"op": "pingpath", "name": "from"}]
+    return cls_case(cls, up, down, ops)
+
+
+def gen_sessions(rng: Rng) -> dict:
+    """item 2, the one piece of per-tick work that continues while a node is not ON: `UserSessionManager.pre_timestep` times
+    idle sessions out whatever the power state.  Log users in (locally, and remotely from the peer), switch the node off and on
+    around it, tick past the time-out; the rig's own reference (time-out at last_active + timeout, power never consulted)
+    must predict what the implementation does, and the notification a remote time-out sends must stop at the interface."""
+    case = pair_case(rng.choice([0, 1, 2]), rng.choice([0, 1, 3]), 1, 1, [], (rng.choice(["computer", "server"]), "computer"))
+    case["session_timeout"] = rng.choice([2, 3, 5])
+    ops = []
+    for _ in range(rng.range(8, 22)):
+        r = rng.below(12)
+        if r < 5:
+            ops.append({"op": "tick"})
+        elif r < 7:
+            ops.append({"op": "login", "node": 0, "remote": rng.chance(1, 2)})
+        elif r < 9:
+            ops.append({"op": "req", "node": 0, "key": "shutdown"})
+        elif r < 10:
+            ops.append({"op": "req", "node": 0, "key": "startup"})
+        elif r < 11:
+            ops.append({"op": "req", "node": 0, "key": "reset"})
+        else:
+            ops.append({"op": "ping", "src": 1, "dst": 0})
+    case["ops"] = ops + [{"op": "tick"}] * (case["session_timeout"] + 2)
+    return case
+
+
+# ------------------------------------------------------------------------------------------------ the loader family
+def load_case(rng: Rng, max_ops: int) -> dict:
+    """a scenario dictionary with one node of every class, each with a declared operating_state / durations / countdowns /
+    reset flag, wired computer-server-printer-host -> switch -> router -> firewall -> wireless router"""
+    decl = []
+    for cls in ALL_CLASSES:
+        d = {"cls": cls, "up": rng.choice([0, 0, 1, 2, 3, -2]), "down": rng.choice([0, 0, 1, 2, 3, -2])}
+        st = rng.choice([None, None, "ON", "OFF", "OFF", "BOOTING", "SHUTTING_DOWN"])
+        if st:
+            d["init"] = st
+        if rng.chance(1, 2):
+            d["up_cd"] = rng.choice([0, 1, 2])
+            d["down_cd"] = rng.choice([0, 1, 2])
+            d["resetting"] = rng.chance(1, 3)
+        decl.append(d)
+    ops = []
+    if rng.chance(2, 3):
+        ops.append({"op": "setup"})
+    for _ in range(rng.range(3, max_ops)):
+        r = rng.below(20)
+        node = rng.below(len(ALL_CLASSES))
+        if r < 7:
+            ops.append({"op": "tick"})
+        elif r < 10:
+            ops.append({"op": "req", "node": node, "key": "startup"})
+        elif r < 12:
+            ops.append({"op": "req", "node": node, "key": "shutdown"})
+        elif r < 13:
+            ops.append({"op": "req", "node": node, "key": "reset"})
+        elif r < 14:
+            ops.append({"op": "setup"})
+        elif r < 16:
+            ops.append({"op": "inject", "node": node, "nic": rng.choice([1, 2])})
+        elif r < 18:
+            ops.append(api_op(rng, node, ALL_CLASSES[node]))
+        else:
+            ops.append({"op": "req", "node": node, "key": "os", "path": ["scan"]})
+    return {"kind": "load", "nodes": decl, "ops": ops}
+
+
+def load_cfg(case: dict) -> dict:
+    from harness.lib.scen import QUIET_IO
+    nodes = []
+    fw_rule = {22: {"action": "PERMIT", "src_port": "ARP", "dst_port": "ARP"}, 23: {"action": "PERMIT", "protocol": "ICMP"}}
+    host_ip = {"host-node": "192.168.1.5", "computer": "192.168.1.2", "printer": "192.168.1.4", "server": "192.168.1.3"}
+    for i, d in enumerate(case["nodes"]):
+        c = d["cls"]
+        n = {"hostname": f"l{i}", "type": c, "start_up_duration": d["up"], "shut_down_duration": d["down"]}
+        if "init" in d:
+            n["operating_state"] = d["init"]
+        if "up_cd" in d:
+            n["start_up_countdown"], n["shut_down_countdown"], n["is_resetting"] = d["up_cd"], d["down_cd"], bool(d["resetting"])
+        if c in HOST_CLASSES:
+            n.update(ip_address=host_ip[c], subnet_mask="255.255.255.0", default_gateway="192.168.1.1")
+            if c == "computer":
+                n["applications"] = [{"type": "database-client", "options": {}}]
+                n["services"] = [{"type": "ftp-server"}, {"type": "dns-client"}]
+        elif c == "switch":
+            n["num_ports"] = 6
+        elif c == "router":
+            n.update(num_ports=3, ports={1: {"ip_address": "192.168.1.1", "subnet_mask": "255.255.255.0"},
+                                         2: {"ip_address": "10.0.0.1", "subnet_mask": "255.255.255.0"}})
+        elif c == "firewall":
+            n.update(ports={"external_port": {"ip_address": "10.0.0.2", "subnet_mask": "255.255.255.0"},
+                            "internal_port": {"ip_address": "10.0.1.1", "subnet_mask": "255.255.255.0"}},
+                     acl={k: dict(fw_rule) for k in ("internal_inbound_acl", "internal_outbound_acl", "dmz_inbound_acl",
+                                                     "dmz_outbound_acl", "external_inbound_acl", "external_outbound_acl")})
+        elif c == "wireless-router":
+            n.update(router_interface={"ip_address": "10.0.1.2", "subnet_mask": "255.255.255.0"},
+                     wireless_access_point={"ip_address": "10.0.3.1", "subnet_mask": "255.255.255.0", "frequency": "WIFI_2_4"})
+        nodes.append(n)
+    idx = {d["cls"]: i for i, d in enumerate(case["nodes"])}
+    L = lambda a, pa, b, pb: {"endpoint_a_hostname": f"l{idx[a]}", "endpoint_a_port": pa, "endpoint_b_hostname": f"l{idx[b]}", "endpoint_b_port": pb}  # noqa: E731
+    links = [L("host-node", 1, "switch", 1), L("computer", 1, "switch", 2), L("printer", 1, "switch", 3), L("server", 1, "switch", 4),
+             L("switch", 5, "router", 1), L("router", 2, "firewall", 1), L("firewall", 2, "wireless-router", 2)]
+    return {"io_settings": dict(QUIET_IO), "game": {"max_episode_length": 64, "ports": [], "protocols": []}, "agents": [],
+            "simulation": {"network": {"nodes": nodes, "links": links}}}
+
+
 # ------------------------------------------------------------------------------------------------ generation
 def power_ops_for(node: int) -> List[dict]:
     return [{"op": "req", "node": node, "key": k} for k in ("shutdown", "startup", "reset")]
@@ -66,7 +328,7 @@ def other_request(rng: Rng, node: int, cls: str, uniq: List[int]) -> dict:
     if k == "scan":
         return {"op": "req", "node": node, "key": "scan", "path": [], "expect": "success"}
     if k == "os":
-        return {"op": "req", "node": node, "key": "os", "path": ["scan"], "expect": "success"}
+        return {"op": "req", "node": node, "key": "os", "path": ["scan"]}
     if k in ("logon", "logoff"):
         return {"op": "req", "node": node, "key": k, "path": [], "expect": "failure"}
     if k == "process":
@@ -80,11 +342,10 @@ def other_request(rng: Rng, node: int, cls: str, uniq: List[int]) -> dict:
     if k == "software_manager":
         return {"op": "req", "node": node, "key": "software_manager", "path": ["application", "install", "nmap"], "expect": "success"}
     if k == "nic":
-        if cls == "wireless-router":
-            # port 1 is the wireless access point, whose enable()/disable() answer None -> from_bool(None) raises (F-2, C05/C16)
-            return {"op": "req", "node": node, "key": "network_interface", "nic": rng.choice([2, 2, 9]),
+        if cls == "wireless-router":  # port 1 is the wireless access point, port 2 the wired interface
+            return {"op": "req", "node": node, "key": "network_interface", "nic": rng.choice([1, 1, 2, 2, 9]),
                     "verb": rng.choice(["enable", "disable"])}
-        return {"op": "req", "node": node, "key": "network_interface", "nic": rng.choice([1, 1, 1, 2, 3, 9]),
+        return {"op": "req", "node": node, "key": "network_interface", "nic": rng.choice([1, 1, 1, 2, 3, 4, 9]),
                 "verb": rng.choice(["enable", "disable"])}
     if k == "service":
         return {"op": "req", "node": node, "key": "service", "svc": rng.choice(HOST_SVCS + ["no-such-service"]), "verb": rng.choice(SVC_VERBS)}
@@ -170,22 +431,28 @@ def exhaustive_pair(depth: int, durs: Tuple[int, int, int, int]):
 
 # ------------------------------------------------------------------------------------------------ implementation side
 class Probe:
-    """in-process wrappers: assignments to operating_state, frames passing an interface of a node that is not ON"""
+    """in-process wrappers: assignments to operating_state, frames passing an interface of a node that is not ON, and the
+    sub-component pre_timestep / apply_timestep calls a node makes in a tick"""
 
     def __init__(self):
         self.state_log: List[Tuple[int, str]] = []
         self.frame_events: Dict[str, int] = {}
         self.bad_frames: List[str] = []
+        self.work_log: List[Tuple[str, int]] = []   # (tag, id of the owning component: software / file system / interface)
         self._undo = []
 
     def install(self):
+        from primaite.simulator.file_system.file_system import FileSystem
         from primaite.simulator.network.airspace import WirelessNetworkInterface
-        from primaite.simulator.network.hardware.base import Node, WiredNetworkInterface
+        from primaite.simulator.network.hardware.base import NetworkInterface, Node, WiredNetworkInterface
         from primaite.simulator.network.hardware.node_operating_state import NodeOperatingState
         from primaite.simulator.network.hardware.nodes.host.host_node import NIC
         from primaite.simulator.network.hardware.nodes.network.router import RouterInterface
         from primaite.simulator.network.hardware.nodes.network.switch import SwitchPort
         from primaite.simulator.network.hardware.nodes.network.wireless_router import WirelessAccessPoint
+        from primaite.simulator.system.applications.application import Application
+        from primaite.simulator.system.services.service import Service
+        from primaite.simulator.system.software import Software
         probe = self
         orig_set = Node.__setattr__
 
@@ -220,38 +487,93 @@ class Probe:
         wrap(WirelessNetworkInterface, "send_frame", "out")
         wrap(WirelessAccessPoint, "receive_frame", "in")
 
+        active: set = set()
+
+        def count(root, meth, tagger):
+            """wrap `meth` wherever it is defined at or below `root`; an object's outermost call is counted once (an override may
+            or may not call super(): UserSessionManager.pre_timestep does not)"""
+            todo, seen = [root], set()
+            while todo:
+                cls = todo.pop()
+                if cls in seen:
+                    continue
+                seen.add(cls)
+                todo += cls.__subclasses__()
+                if meth not in cls.__dict__:
+                    continue
+                orig = cls.__dict__[meth]
+
+                def w(self_, *a, _orig=orig, **k):
+                    key = (id(self_), meth)
+                    if key in active:
+                        return _orig(self_, *a, **k)
+                    tag = tagger(self_)
+                    if tag:
+                        probe.work_log.append((tag, id(self_)))
+                    active.add(key)
+                    try:
+                        return _orig(self_, *a, **k)
+                    finally:
+                        active.discard(key)
+                setattr(cls, meth, w)
+                self._undo.append(lambda cls=cls, orig=orig: setattr(cls, meth, orig))
+
+        def sw(prefix):
+            return lambda o: prefix + ("s" if isinstance(o, Service) else "a" if isinstance(o, Application) else "")
+        count(Software, "apply_timestep", sw("t"))
+        count(Software, "pre_timestep", sw("p"))
+        count(FileSystem, "apply_timestep", lambda o: "tf")
+        count(FileSystem, "pre_timestep", lambda o: "pf")
+        count(NetworkInterface, "apply_timestep", lambda o: "tn")
+        count(NetworkInterface, "pre_timestep", lambda o: "pn")
+
     def remove(self):
         for u in reversed(self._undo):
             u()
         self._undo = []
 
 
+def _host(k, spec, d, kind):
+    c = spec["cls"]
+    host_ips = {"computer": "192.168.1.2", "server": "192.168.1.3", "printer": "192.168.1.4", "host-node": "192.168.1.5"}
+    cfg = {"type": c, "ip_address": spec.get("ip", host_ips[c]), "subnet_mask": "255.255.255.0", **d}
+    if spec.get("init"):  # a node that the scenario file declares not ON, possibly in mid-transition
+        cfg["operating_state"] = spec["init"]
+        cfg["start_up_countdown"] = spec.get("up_cd", 0)
+        cfg["shut_down_countdown"] = spec.get("down_cd", 0)
+        cfg["is_resetting"] = bool(spec.get("resetting", False))
+    if spec.get("gw"):
+        cfg["default_gateway"] = spec["gw"]
+    elif kind == "scenario":
+        cfg["default_gateway"] = "192.168.1.1"
+    return k.from_config(cfg)
+
+
 def build(case: dict):
     from primaite.simulator.network.hardware.nodes.host.computer import Computer
+    from primaite.simulator.network.hardware.nodes.host.host_node import HostNode
     from primaite.simulator.network.hardware.nodes.host.server import Printer, Server
     from primaite.simulator.network.hardware.nodes.network.firewall import Firewall
     from primaite.simulator.network.hardware.nodes.network.router import Router
     from primaite.simulator.network.hardware.nodes.network.switch import Switch
     from primaite.simulator.network.hardware.nodes.network.wireless_router import WirelessRouter
     from primaite.simulator.sim_container import Simulation
+    if case["kind"] == "load":
+        from primaite.game.game import PrimaiteGame
+        game = PrimaiteGame.from_config(load_cfg(case))
+        sim = game.simulation
+        by_name = {n.config.hostname: n for n in sim.network.nodes.values()}
+        return sim, [by_name[f"l{i}"] for i in range(len(case["nodes"]))], game
     sim = Simulation()
     net = sim.network
     nodes = []
-    host_ips = {"computer": "192.168.1.2", "server": "192.168.1.3", "printer": "192.168.1.4"}
+    fw_rule = {22: {"action": "PERMIT", "src_port": "ARP", "dst_port": "ARP"}, 23: {"action": "PERMIT", "protocol": "ICMP"}}
     for spec in case["nodes"]:
         d = {"hostname": spec["name"], "start_up_duration": spec["up"], "shut_down_duration": spec["down"]}
         c = spec["cls"]
-        if c in ("computer", "server", "printer"):
-            k = {"computer": Computer, "server": Server, "printer": Printer}[c]
-            cfg = {"type": c, "ip_address": spec.get("ip", host_ips[c]), "subnet_mask": "255.255.255.0", **d}
-            if spec.get("init"):  # a node that the scenario file declares not ON, possibly in mid-transition
-                cfg["operating_state"] = spec["init"]
-                cfg["start_up_countdown"] = spec.get("up_cd", 0)
-                cfg["shut_down_countdown"] = spec.get("down_cd", 0)
-                cfg["is_resetting"] = bool(spec.get("resetting", False))
-            if case["kind"] == "scenario":
-                cfg["default_gateway"] = "192.168.1.1"
-            n = k.from_config(cfg)
+        if c in HOST_CLASSES:
+            k = {"computer": Computer, "server": Server, "printer": Printer, "host-node": HostNode}[c]
+            n = _host(k, spec, d, case["kind"])
         elif c == "switch":
             n = Switch.from_config({"type": "switch", "num_ports": 4, **d})
         elif c == "router":
@@ -259,12 +581,20 @@ def build(case: dict):
                 1: {"ip_address": "192.168.1.1", "subnet_mask": "255.255.255.0"},
                 2: {"ip_address": "10.0.0.1", "subnet_mask": "255.255.255.0"}}, **d})
         elif c == "firewall":
-            n = Firewall.from_config({"type": "firewall", "ports": {
-                "external_port": {"ip_address": "10.0.0.2", "subnet_mask": "255.255.255.0"},
-                "internal_port": {"ip_address": "10.0.1.1", "subnet_mask": "255.255.255.0"}}, **d})
+            if case["kind"] == "cls":   # external port towards A, internal port towards B, every ACL lets ARP and ICMP through
+                n = Firewall.from_config({"type": "firewall", "ports": {
+                    "external_port": {"ip_address": "192.168.1.1", "subnet_mask": "255.255.255.0"},
+                    "internal_port": {"ip_address": "10.0.0.1", "subnet_mask": "255.255.255.0"}},
+                    "acl": {a: dict(fw_rule) for a in ("internal_inbound_acl", "internal_outbound_acl", "dmz_inbound_acl",
+                                                       "dmz_outbound_acl", "external_inbound_acl", "external_outbound_acl")}, **d})
+            else:
+                n = Firewall.from_config({"type": "firewall", "ports": {
+                    "external_port": {"ip_address": "10.0.0.2", "subnet_mask": "255.255.255.0"},
+                    "internal_port": {"ip_address": "10.0.1.1", "subnet_mask": "255.255.255.0"}}, **d})
         elif c == "wireless-router":
-            n = WirelessRouter.from_config({"type": "wireless-router", "router_interface": {"ip_address": "10.0.2.1", "subnet_mask": "255.255.255.0"},
-                                            "wireless_access_point": {"ip_address": "10.0.3.1", "subnet_mask": "255.255.255.0", "frequency": "WIFI_2_4"},
+            wired_ip, ap_ip = spec.get("wr_ips", ("10.0.2.1", "10.0.3.1"))
+            n = WirelessRouter.from_config({"type": "wireless-router", "router_interface": {"ip_address": wired_ip, "subnet_mask": "255.255.255.0"},
+                                            "wireless_access_point": {"ip_address": ap_ip, "subnet_mask": "255.255.255.0", "frequency": "WIFI_2_4"},
                                             **d}, airspace=net.airspace)
         else:
             raise ValueError(c)
@@ -277,16 +607,21 @@ def build(case: dict):
             s.restart_duration = 2
         for a in n.applications.values():  # as Network.setup_for_episode does: applications of an ON node are opened
             a.run()
-    return sim, nodes
+    return sim, nodes, None
 
 
-def snapshot(n) -> str:
+def _nic_tokens(n) -> List[str]:
     from primaite.simulator.network.airspace import WirelessNetworkInterface
-    nics = []
+    out = []
     for port in sorted(n.network_interface):
         ni = n.network_interface[port]
         linked = True if isinstance(ni, WirelessNetworkInterface) else bool(getattr(ni, "_connected_link", None))
-        nics.append(("1" if ni.enabled else "0") + ("1" if linked else "0"))
+        out.append(("1" if ni.enabled else "0") + ("1" if linked else "0") + NIC_KIND[type(ni).__name__])
+    return out
+
+
+def snapshot(n) -> str:
+    nics = _nic_tokens(n)
     svcs = []
     for s in n.services.values():
         st = SVC_CODE[s.operating_state.name]
@@ -300,17 +635,12 @@ def snapshot(n) -> str:
         return ",".join(xs) if xs else "-"
     c = n.config
     return (f"st={n.operating_state.name} up={c.start_up_countdown} down={c.shut_down_countdown} rs={'1' if c.is_resetting else '0'} "
-            f"nics={j(nics)} svcs={j(svcs)} apps={j(apps)}")
+            f"nics={j(nics)} svcs={j(svcs)} apps={j(apps)} scan={n.node_scan_countdown},{n.red_scan_countdown}")
 
 
 def node_line(spec: dict, n) -> str:
     """the `node ...` line that loads the implementation's initial state into the model"""
-    from primaite.simulator.network.airspace import WirelessNetworkInterface
-    nics = []
-    for port in sorted(n.network_interface):
-        ni = n.network_interface[port]
-        linked = True if isinstance(ni, WirelessNetworkInterface) else bool(getattr(ni, "_connected_link", None))
-        nics.append(("1" if ni.enabled else "0") + ("1" if linked else "0"))
+    nics = _nic_tokens(n)
     svcs = [f"{SVC_CODE[s.operating_state.name]}:{s.restart_countdown or 0}:{s.restart_duration}" for s in n.services.values()]
     apps = [f"{APP_CODE[a.operating_state.name]}:{a.install_countdown or 0}:{a.install_duration}" for a in n.applications.values()]
 
@@ -318,7 +648,17 @@ def node_line(spec: dict, n) -> str:
         return ",".join(xs) if xs else "-"
     c = n.config
     return (f"node {spec['cls']} {n.operating_state.name} {c.start_up_duration} {c.shut_down_duration} {c.start_up_countdown} "
-            f"{c.shut_down_countdown} {'1' if c.is_resetting else '0'} {j(nics)} {j(svcs)} {j(apps)}")
+            f"{c.shut_down_countdown} {'1' if c.is_resetting else '0'} {j(nics)} {j(svcs)} {j(apps)} "
+            f"{n.node_scan_countdown} {n.red_scan_countdown} {c.node_scan_duration}")
+
+
+def load_line(decl: dict, n, wired: List[bool]) -> str:
+    """the `load ...` line: what the FILE declares (plus the inventory the file implies: interface kinds in port order,
+    which ports the links wire, how many services / applications get installed); the model's loader computes the node"""
+    kinds = "".join(t[2] for t in _nic_tokens(n))
+    return (f"load {decl['cls']} {decl.get('init', '-')} {decl['up']} {decl['down']} {decl.get('up_cd', 0)} {decl.get('down_cd', 0)} "
+            f"{'1' if decl.get('resetting') else '0'} {kinds} {''.join('1' if w else '0' for w in wired)} "
+            f"{len(n.services)} {len(n.applications)} {n.config.node_scan_duration}")
 
 
 def _svc_index(n, name: str) -> int:
@@ -337,15 +677,33 @@ def run_case(case: dict) -> Tuple[List[str], List[str], List[str], Dict[str, int
     probe = Probe()
     probe.install()
     try:
-        sim, nodes = build(case)
+        sim, nodes, game = build(case)
         ids = {id(n): i for i, n in enumerate(nodes)}
+        owner: Dict[int, int] = {}
+        for i, n in enumerate(nodes):
+            owner[id(n.file_system)] = i
+
+        def owner_of(tag: str, oid: int, cache={}) -> Optional[int]:
+            return owner.get(oid)
         lines: List[str] = ["reset"]
         impl: List[str] = ["ok"]
         oracle: List[str] = []
-        for i, (spec, n) in enumerate(zip(case["nodes"], nodes)):
-            lines.append(node_line(spec, n))
-            impl.append(f"ok {i}")
+        cls_of = [spec["cls"] for spec in case["nodes"]]
+        if case["kind"] == "load":
+            wired_ports = {i: set() for i in range(len(nodes))}
+            for l in load_cfg(case)["simulation"]["network"]["links"]:
+                wired_ports[int(l["endpoint_a_hostname"][1:])].add(l["endpoint_a_port"])
+                wired_ports[int(l["endpoint_b_hostname"][1:])].add(l["endpoint_b_port"])
+            for i, (decl, n) in enumerate(zip(case["nodes"], nodes)):
+                wired = [port in wired_ports[i] for port in sorted(n.network_interface)]
+                lines.append(load_line(decl, n, wired))
+                impl.append(f"ok {i} {snapshot(n)}")
+        else:
+            for i, (spec, n) in enumerate(zip(case["nodes"], nodes)):
+                lines.append(node_line(spec, n))
+                impl.append(f"ok {i}")
         probe.state_log.clear()
+        probe.work_log.clear()
         t = 0
 
         def traces() -> Dict[int, str]:
@@ -356,103 +714,260 @@ def run_case(case: dict) -> Tuple[List[str], List[str], List[str], Dict[str, int
             probe.state_log.clear()
             return {k: ">".join(v) for k, v in per.items()}
 
+        def work() -> Dict[int, str]:
+            """per node: the sub-component calls of this tick, in first-seen order, with counts"""
+            for i, n in enumerate(nodes):  # software / interfaces may have been installed since the last tick
+                for s in list(n.services.values()) + list(n.applications.values()):
+                    owner[id(s)] = i
+                for ni in n.network_interfaces.values():
+                    owner[id(ni)] = i
+            per: Dict[int, Dict[str, int]] = {}
+            for tag, oid in probe.work_log:
+                i = owner.get(oid)
+                if i is not None:
+                    d = per.setdefault(i, {})
+                    d[tag] = d.get(tag, 0) + 1
+            probe.work_log.clear()
+            out = {}
+            for i, d in per.items():
+                out[i] = ",".join(f"{tag}{'' if tag in ('pf', 'tf') else k}" for tag, k in d.items())
+            return out
+
         def invariants(tag: str):
             for i, n in enumerate(nodes):
                 if n.operating_state != NodeOperatingState.ON:
                     for port, ni in n.network_interface.items():
                         if ni.enabled:
-                            oracle.append(f"nic-enabled-while-{n.operating_state.name}|{case['nodes'][i]['cls']}|after {tag}")
+                            oracle.append(f"nic-enabled-while-{n.operating_state.name}|{cls_of[i]}|after {tag}")
                 if n.operating_state == NodeOperatingState.OFF:
                     for s in n.services.values():
                         if s.operating_state.name == "RUNNING":
-                            oracle.append(f"service-running-while-OFF|{case['nodes'][i]['cls']}|{s.name} after {tag}")
+                            oracle.append(f"service-running-while-OFF|{cls_of[i]}|{s.name} after {tag}")
                     for a in n.applications.values():
                         if a.operating_state.name == "RUNNING":
-                            oracle.append(f"application-running-while-OFF|{case['nodes'][i]['cls']}|{a.name} after {tag}")
+                            oracle.append(f"application-running-while-OFF|{cls_of[i]}|{a.name} after {tag}")
+        if case["kind"] == "load":
+            invariants("loading")
+        # reference for user sessions: (node index) -> {"local": last_active or None, "remote": [last_active, ...]}
+        sess_ref = {i: {"local": None, "remote": []} for i in range(len(nodes))}
+        sess_now = {i: 0 for i in range(len(nodes))}   # UserSessionManager.current_timestep as the reference sees it
+        tmo = case.get("session_timeout")
+        if tmo:
+            for n in nodes:
+                n.user_session_manager.local_session_timeout_steps = tmo
+                n.user_session_manager.remote_session_timeout_steps = tmo
 
         for k, op in enumerate(case["ops"]):
-            nb = len(probe.bad_frames)
-            kind = op["op"]
-            if kind == "tick":
-                sim.pre_timestep(t)
-                sim.apply_timestep(t)
-                t += 1
-                tr = traces()
-                for i, n in enumerate(nodes):
-                    lines.append(f"tick {i}")
-                    impl.append(f"done h={tr.get(i, '-')} {snapshot(n)}")
-            elif kind == "req":
-                i = op["node"]
-                n = nodes[i]
-                key = op["key"]
-                was_on = n.operating_state == NodeOperatingState.ON
-                if key in ("shutdown", "startup", "reset"):
-                    path, sub = [key], "opaque success"
-                elif key == "service":
-                    path, sub = [key, op["svc"], op["verb"]], f"svc {_svc_index(n, op['svc'])} {op['verb']}"
-                elif key == "application":
-                    path, sub = [key, op["app"], "close"], f"app {_app_index(n, op['app'])}"
-                elif key == "network_interface":
-                    path, sub = [key, op["nic"], op["verb"]], f"nic {op['nic'] - 1} {op['verb']}"
-                else:
-                    path, sub = [key, *op["path"]], f"opaque {op['expect']}"
-                try:
-                    resp = sim.apply_request(["network", "node", n.config.hostname, *path], {})
-                    status = resp.status
-                except Exception as e:  # a request must answer, not raise
-                    status = f"raised:{type(e).__name__}"
-                    oracle.append(f"request-raised|{case['nodes'][i]['cls']}|{key} {type(e).__name__}: {e}")
-                if not was_on and key != "startup" and status not in ("failure", "unreachable"):
-                    oracle.append(f"request-accepted-while-not-on|{case['nodes'][i]['cls']}|{key} -> {status}")
-                tr = traces()
-                lines.append(f"req {i} {key} {sub}")
-                impl.append(f"{status} h={tr.get(i, '-')} {snapshot(n)}")
-                for j, m in enumerate(nodes):  # nothing may happen to the other nodes' power state
-                    if j != i and j in tr:
-                        oracle.append(f"foreign-state-change|{case['nodes'][j]['cls']}|{tr[j]} during request to node {i}")
-            elif kind == "ping":
-                src, dst = nodes[op["src"]], nodes[op["dst"]]
-                dst_ip = dst.network_interface[1].ip_address
-                dst_on = dst.operating_state == NodeOperatingState.ON
-                src_on = src.operating_state == NodeOperatingState.ON
-                # ICMPPacket treats identifier 0 as "unset" and draws a new one (protocols/icmp.py), so one ping in 65536 loses its
-                # reply although both nodes are up (not a C12 matter; noted for C08). A ping has no effect on the modelled state,
-                # so a failed ping is tried once more; a power-gating failure is deterministic and fails both times.
-                ok = bool(src.ping(dst_ip, pings=1)) or bool(src.ping(dst_ip, pings=1))
-                if ok and not (dst_on and src_on):
-                    oracle.append(f"ping-succeeded-with-node-not-on|{case['nodes'][op['dst']]['cls']}|src_on={src_on} dst_on={dst_on}")
-                lines.append(f"ping {op['src']} {op['dst']}")
-                impl.append("1" if ok else "0")
-                traces()
-            elif kind == "traffic":  # scenario scale: ping an address somewhere in the network; only the oracles look at it
-                try:
-                    nodes[op["src"]].ping(op["dst"], pings=1)
-                except Exception as e:
-                    oracle.append(f"traffic-raised|{case['nodes'][op['src']]['cls']}|{type(e).__name__}: {e}")
-                traces()
-            elif kind == "inject":  # hand a frame straight to an interface
-                n = nodes[op["node"]]
-                ni = n.network_interface.get(op["nic"])
-                if ni is not None:
-                    ok = _inject(ni)
-                    lines.append(f"in {op['node']} {op['nic'] - 1}")
-                    impl.append("1" if ok else "0")
-                traces()
-            elif kind == "appinstall":
-                n = nodes[op["node"]]
-                j = _app_index(n, op["app"])
-                if j != 99:
-                    list(n.applications.values())[j].install()
-                    lines.append(f"appinstall {op['node']} {j}")
-                    impl.append(f"done h=- {snapshot(n)}")
-            else:
-                raise ValueError(kind)
-            for b in probe.bad_frames[nb:]:
-                oracle.append(f"frame-passed-interface-of-node-not-on|{b.split(' on ')[0]}|{b} during op {k} {op}")
-            invariants(f"op {k} {op}")
+          nb = len(probe.bad_frames)
+          kind = op["op"]
+          try:
+              if kind == "tick":
+                  before = [n.operating_state for n in nodes]
+                  clocks = [_clocks(n) for n in nodes]
+                  sim.pre_timestep(t)
+                  if tmo:   # the reference: a session idle for `tmo` steps ends at this pre_timestep, whatever the node's power state
+                      for i, n in enumerate(nodes):
+                          ref = sess_ref[i]
+                          sess_now[i] = t
+                          was = (ref["local"] is not None, len(ref["remote"]))
+                          if ref["local"] is not None and ref["local"] + tmo <= t:
+                              ref["local"] = None
+                          ref["remote"] = [x for x in ref["remote"] if not (x + tmo <= t)]
+                          usm = n.user_session_manager
+                          seen = (usm.local_session is not None, len(usm.remote_sessions))
+                          want = (ref["local"] is not None, len(ref["remote"]))
+                          if seen != want:
+                              oracle.append(f"session-timeout-differs-from-power-blind-reference|{cls_of[i]}|tick {t} {n.operating_state.name}: "
+                                            f"(local, #remote) seen {seen} expected {want}")
+                          if want != was:
+                              probe.frame_events[f"session-timed-out:{'ON' if before[i] == NodeOperatingState.ON else 'not-ON'}"] = \
+                                  probe.frame_events.get(f"session-timed-out:{'ON' if before[i] == NodeOperatingState.ON else 'not-ON'}", 0) + 1
+                  sim.apply_timestep(t)
+                  t += 1
+                  tr = traces()
+                  wk = work()
+                  for i, n in enumerate(nodes):
+                      lines.append(f"tick {i}")
+                      impl.append(f"done h={tr.get(i, '-')} w={wk.get(i, '')} {snapshot(n)}")
+                      # oracle (independent of the model): a node that is not ON before and after the tick moved no software clock
+                      if before[i] != NodeOperatingState.ON and n.operating_state != NodeOperatingState.ON and _clocks(n) != clocks[i]:
+                          oracle.append(f"software-clock-moved-while-not-on|{cls_of[i]}|{clocks[i]} -> {_clocks(n)} in tick {k}")
+                      if n.operating_state != NodeOperatingState.ON and any(x in wk.get(i, "") for x in ("ts", "ta", "tf")):
+                          oracle.append(f"software-ticked-while-not-on|{cls_of[i]}|{wk.get(i)} in tick {k}")
+              elif kind == "req":
+                  i = op["node"]
+                  n = nodes[i]
+                  key = op["key"]
+                  was_on = n.operating_state == NodeOperatingState.ON
+                  if key in ("shutdown", "startup", "reset"):
+                      path, sub = [key], "opaque success"
+                  elif key == "service":
+                      path, sub = [key, op["svc"], op["verb"]], f"svc {_svc_index(n, op['svc'])} {op['verb']}"
+                  elif key == "application":
+                      path, sub = [key, op["app"], "close"], f"app {_app_index(n, op['app'])}"
+                  elif key == "network_interface":
+                      path, sub = [key, op["nic"], op["verb"]], f"nic {op['nic'] - 1} {op['verb']}"
+                  elif key == "os" and op.get("path") == ["scan"]:
+                      path, sub = [key, "scan"], "osscan"
+                  else:
+                      path, sub = [key, *op["path"]], f"opaque {op['expect']}"
+                  try:
+                      resp = sim.apply_request(["network", "node", n.config.hostname, *path], {})
+                      status = resp.status
+                  except Exception as e:  # a request must answer, not raise
+                      status = f"raised:{type(e).__name__}"
+                      oracle.append(f"request-raised|{cls_of[i]}|{key} {type(e).__name__}: {e}")
+                  if not was_on and key != "startup" and status not in ("failure", "unreachable"):
+                      oracle.append(f"request-accepted-while-not-on|{cls_of[i]}|{key} -> {status}")
+                  tr = traces()
+                  lines.append(f"req {i} {key} {sub}")
+                  impl.append(f"{status} h={tr.get(i, '-')} {snapshot(n)}")
+                  for j, m in enumerate(nodes):  # nothing may happen to the other nodes' power state
+                      if j != i and j in tr:
+                          oracle.append(f"foreign-state-change|{cls_of[j]}|{tr[j]} during request to node {i}")
+              elif kind == "ping":
+                  src, dst = nodes[op["src"]], nodes[op["dst"]]
+                  dst_ip = dst.network_interface[1].ip_address
+                  dst_on = dst.operating_state == NodeOperatingState.ON
+                  src_on = src.operating_state == NodeOperatingState.ON
+                  # ICMPPacket treats identifier 0 as "unset" and draws a new one (protocols/icmp.py), so one ping in 65536 loses its
+                  # reply although both nodes are up (not a C12 matter; noted for C08). A ping has no effect on the modelled state,
+                  # so a failed ping is tried once more; a power-gating failure is deterministic and fails both times.
+                  ok = bool(src.ping(dst_ip, pings=1)) or bool(src.ping(dst_ip, pings=1))
+                  if ok and not (dst_on and src_on):
+                      oracle.append(f"ping-succeeded-with-node-not-on|{cls_of[op['dst']]}|src_on={src_on} dst_on={dst_on}")
+                  lines.append(f"ping {op['src']} {op['dst']}")
+                  impl.append("1" if ok else "0")
+                  traces()
+              elif kind == "pingpath":  # a ping to / through the node under test; every interface it must cross is named
+                  src_i, ip, hops = case["pings"][op["name"]]
+                  src = nodes[src_i]
+                  on_path = sorted({src_i} | {h[0] for h in hops})
+                  all_on = all(nodes[j].operating_state == NodeOperatingState.ON for j in on_path)
+                  ok = bool(src.ping(ip, pings=1)) or bool(src.ping(ip, pings=1))
+                  if ok and not all_on:
+                      off = [f"{cls_of[j]}:{nodes[j].operating_state.name}" for j in on_path if nodes[j].operating_state != NodeOperatingState.ON]
+                      oracle.append(f"ping-succeeded-with-node-not-on|{cls_of[0]}|{op['name']} crossed {off}")
+                  lines.append(f"pingpath {src_i} " + " ".join(f"{a}:{b}" for a, b in hops))
+                  impl.append("1" if ok else "0")
+                  traces()
+              elif kind == "login":   # straight at the user session manager (the `logon` request is a stub that always fails)
+                  i = op["node"]
+                  n = nodes[i]
+                  usm = n.user_session_manager
+                  on = n.operating_state == NodeOperatingState.ON
+                  if op.get("remote"):
+                      peer_ip = nodes[1 - i].network_interface[1].ip_address
+                      had = len(usm.remote_sessions)
+                      sid = usm.remote_login("admin", "admin", peer_ip)
+                      if sid and len(usm.remote_sessions) > had:
+                          sess_ref[i]["remote"].append(sess_now[i])
+                  else:
+                      fresh = usm.local_session is None
+                      sid = usm.local_login("admin", "admin")
+                      if sid and fresh:
+                          sess_ref[i]["local"] = sess_now[i]
+                  if sid and not on:
+                      oracle.append(f"login-succeeded-while-not-on|{cls_of[i]}|{n.operating_state.name}")
+                  probe.frame_events[f"login:{'ON' if on else 'not-ON'}:{'ok' if sid else 'refused'}"] = \
+                      probe.frame_events.get(f"login:{'ON' if on else 'not-ON'}:{'ok' if sid else 'refused'}", 0) + 1
+                  traces()
+              elif kind == "traffic":  # scenario scale: ping an address somewhere in the network; only the oracles look at it
+                  try:
+                      nodes[op["src"]].ping(op["dst"], pings=1)
+                  except Exception as e:
+                      oracle.append(f"traffic-raised|{cls_of[op['src']]}|{type(e).__name__}: {e}")
+                  traces()
+              elif kind == "inject":  # hand a frame straight to an interface
+                  n = nodes[op["node"]]
+                  ni = n.network_interface.get(op["nic"])
+                  if ni is not None:
+                      ok = _inject(ni)
+                      lines.append(f"in {op['node']} {op['nic'] - 1}")
+                      impl.append("1" if ok else "0")
+                  traces()
+              elif kind == "appinstall":   # kept for the stored corpus: `Application.install()` through the Python API
+                  n = nodes[op["node"]]
+                  j = _app_index(n, op["app"])
+                  if j != 99:
+                      list(n.applications.values())[j].install()
+                      lines.append(f"api {op['node']} appinstall {j}")
+                      impl.append(f"done h=- {snapshot(n)}")
+              elif kind == "api":  # the Python API, no request and no validator in front of it
+                  i = op["node"]
+                  n = nodes[i]
+                  call = op["call"]
+                  line = None
+                  if call == "poweron":
+                      n.power_on(); line = "poweron"
+                  elif call == "poweroff":
+                      n.power_off(); line = "poweroff"
+                  elif call == "reset":
+                      n.reset(); line = "reset"
+                  elif call in ("nicenable", "nicdisable"):
+                      ni = n.network_interface.get(op["nic"])
+                      if ni is not None:
+                          (ni.enable if call == "nicenable" else ni.disable)()
+                          line = f"{call} {op['nic'] - 1}"
+                  elif call == "svc":
+                      j = _svc_index(n, op["svc"])
+                      if j != 99:
+                          getattr(list(n.services.values())[j], op["verb"])()
+                          line = f"svc {j} {op['verb']}"
+                  elif call in ("apprun", "appclose", "appinstall"):
+                      j = _app_index(n, op["app"])
+                      if j != 99:
+                          getattr(list(n.applications.values())[j], {"apprun": "run", "appclose": "close", "appinstall": "install"}[call])()
+                          line = f"{call} {j}"
+                  else:
+                      raise ValueError(call)
+                  tr = traces()
+                  if line is not None:
+                      lines.append(f"api {i} {line}")
+                      impl.append(f"done h={tr.get(i, '-')} {snapshot(n)}")
+              elif kind == "setdur":   # the configured durations are plain mutable attributes of node.config
+                  i = op["node"]
+                  n = nodes[i]
+                  n.config.start_up_duration = op["up"]
+                  n.config.shut_down_duration = op["down"]
+                  lines.append(f"setdur {i} {op['up']} {op['down']}")
+                  impl.append(f"done h=- {snapshot(n)}")
+              elif kind == "setup":    # what PrimaiteGymEnv.reset() does after from_config
+                  if game is not None:
+                      game.setup_for_episode(episode=1)
+                  else:
+                      sim.setup_for_episode(episode=1)
+                  tr = traces()
+                  for i, n in enumerate(nodes):
+                      lines.append(f"setup {i}")
+                      impl.append(f"done h={_dedup(tr.get(i, '-'))} {snapshot(n)}")
+              else:
+                  raise ValueError(kind)
+          except Exception as e:
+            # an operation of the IMPLEMENTATION raised (innermost frame under src/primaite): a finding, not a machinery error;
+            # the case stops here because the objects may be half-updated
+            import traceback
+            tb = traceback.extract_tb(e.__traceback__)
+            if not tb or "/src/primaite/" not in tb[-1].filename:
+                raise
+            where = f"{tb[-1].filename.split('/src/primaite/')[-1]}:{tb[-1].name}"
+            oracle.append(f"operation-raised|{cls_of[op.get('node', 0)] if isinstance(op.get('node', 0), int) else '?'}|{kind} {type(e).__name__}: {e} in {where}")
+            break
+          for b in probe.bad_frames[nb:]:
+              oracle.append(f"frame-passed-interface-of-node-not-on|{b.split(' on ')[0]}|{b} during op {k} {op}")
+          invariants(f"op {k} {op}")
         return lines, impl, oracle, dict(probe.frame_events)
     finally:
         probe.remove()
+
+
+def _dedup(tr: str) -> str:
+    return tr
+
+
+def _clocks(n):
+    return ([s.restart_countdown for s in n.services.values()], [a.install_countdown for a in n.applications.values()],
+            n.node_scan_countdown, n.red_scan_countdown)
 
 
 def _inject(ni) -> bool:
@@ -472,10 +987,27 @@ def route_tables() -> Dict[str, List[Tuple[str, str]]]:
     """run-time cross-check of Gen.Power.classTables: keys and validator classes of live nodes' request managers"""
     case = scenario_case([(0, 0)] * 6, [])
     case["nodes"].append({"cls": "printer", "name": "m6", "up": 0, "down": 0})
-    _, nodes = build(case)
+    case["nodes"].append({"cls": "host-node", "name": "m7", "up": 0, "down": 0})
+    _, nodes, _ = build(case)
     out = {}
     names = {"_NodeIsOnValidator": ".nodeOn", "_NodeIsOffValidator": ".nodeOff", "AllowAllValidator": ".none"}
     for spec, n in zip(case["nodes"], nodes):
         out[spec["cls"]] = [(k, names.get(type(rt.validator).__name__, "?" + type(rt.validator).__name__))
                             for k, rt in n._request_manager.request_types.items()]
     return out
+
+
+def live_inventories() -> Tuple[Dict[str, Tuple[str, bool]], List[str]]:
+    """run-time cross-check of the class inventories: Node._registry (discriminator -> class, abstract?) and the interface
+    classes the driven nodes actually carry"""
+    import inspect
+
+    import primaite.game.game  # noqa: F401  (imports every node class, as the loader does)
+    from primaite.simulator.network.hardware.base import Node
+    reg = {d: (c.__name__, not inspect.isabstract(c)) for d, c in Node._registry.items()}
+    case = scenario_case([(0, 0)] * 6, [])
+    case["nodes"].append({"cls": "printer", "name": "m6", "up": 0, "down": 0})
+    case["nodes"].append({"cls": "host-node", "name": "m7", "up": 0, "down": 0})
+    _, nodes, _ = build(case)
+    kinds = sorted({type(ni).__name__ for n in nodes for ni in n.network_interface.values()})
+    return reg, kinds
